@@ -119,7 +119,7 @@ fn plan(mix: Mix, thread: usize, ops: usize, rng: &mut Rng) -> ThreadPlan {
             Mix::ListMixed => {
                 let id = next_id(&mut counter);
                 let body = match rng.below(28) {
-                    24 => format!("r {i}, L == L"),
+                    24 => format!("r {i}, 'selfeq:{{L == L}}'"),
                     25 => format!("r {i}, '{{L}}'"),
                     26 => format!("r {i}, L.each(|x| x).to_tuple()"),
                     27 => format!("r {i}, L.iter().chain(L.iter()).count()"),
@@ -149,7 +149,7 @@ fn plan(mix: Mix, thread: usize, ops: usize, rng: &mut Rng) -> ThreadPlan {
                 let id = next_id(&mut counter);
                 let key = format!("k{}", rng.below(3));
                 let body = match rng.below(23) {
-                    20 => format!("r {i}, M == M"),
+                    20 => format!("r {i}, 'selfeq:{{M == M}}'"),
                     21 => format!("r {i}, '{{M}}'"),
                     22 => format!("r {i}, M.each(|(k, v)| v).to_tuple()"),
                     0..=2 => { inserted.push((i, vec![id])); format!("r {i}, M.insert('{key}', {id})") }
@@ -376,6 +376,10 @@ pub fn run_round(mix: Mix, threads: usize, ops: usize, seed: u64, inject_yields:
         }
         Mix::ListMixed | Mix::MapMixed => {
             for (t, i, v) in &lines {
+                // the container compared with itself: both sides are one state of it (the elements are numbers / null)
+                if v == "selfeq:false" {
+                    return Err(json!({"rule": "torn-comparison", "detail": format!("thread {t} op {i}: the shared container compared unequal to itself")}));
+                }
                 for id in parse_ints(v) {
                     // small numbers are sizes / key digits; ids start at 10^7
                     if id >= 10_000_000 && !inserted_all.contains_key(&id) {
